@@ -274,6 +274,8 @@ def _feat(c, o):
 
 
 def klass(c, o):
+    if o.get("hang"):
+        return "hang"
     if o.get("leak"):
         return "leak"
     if o.get("panic"):
